@@ -224,6 +224,6 @@ def histories(draw, max_n=40, max_parts=4, max_attempts=3):
             attempts.append([bb[j + 1] - bb[j] for j in range(len(bb) - 1)])
             total_chunks += len(attempts[-1])
         parts.append([start, attempts])
-    merge = draw(st.lists(st.integers(0, 3), min_size=0,
+    merge = draw(st.lists(st.integers(0, max(3, max_parts - 1)), min_size=0,
                           max_size=total_chunks))
     return {'n': n, 'parts': parts, 'merge': merge}
